@@ -35,9 +35,7 @@ import (
 	"context"
 	"encoding/json"
 	"fmt"
-	"runtime/debug"
 	"sort"
-	"strings"
 	"testing"
 
 	corev1 "k8s.io/api/core/v1"
@@ -126,48 +124,6 @@ func c06ShapeSpec(s c06PodShape) corev1.PodSpec {
 		Priority:   ptr.To[int32](s.prio),
 		Containers: []corev1.Container{{Name: "main", Resources: corev1.ResourceRequirements{Requests: reqs}}},
 	}
-}
-
-// c06GuardKnownPanic runs f. The index-out-of-range panic of topologymanager.checkExclusivePolicy on nodes whose
-// NUMA ids are not 0..k-1 (finding C06/panic/topologymanager.checkExclusivePolicy) is reported and the case goes on
-// (report-and-continue); any other panic is reported under the frame that raised it and ends the case.
-func c06GuardKnownPanic(c *kit.Case, f func()) (panicked bool) {
-	defer func() {
-		e := recover()
-		if e == nil {
-			return
-		}
-		stack := string(debug.Stack())
-		if strings.Contains(stack, "topologymanager.checkExclusivePolicy(") {
-			c.Report("C06/panic/topologymanager.checkExclusivePolicy", "panic: %v\n%s", e, stack)
-			c.Count("resv_known_panics_exclusive_status_index", 1)
-			panicked = true
-			return
-		}
-		fn := "unknown"
-		lines := strings.Split(stack, "\n")
-		seenPanic := false
-		for i := 0; i+1 < len(lines); i++ {
-			l := lines[i]
-			if strings.HasPrefix(l, "panic(") {
-				seenPanic = true
-				continue
-			}
-			if seenPanic && strings.Contains(l, "github.com/koordinator-sh/koordinator/") && !strings.Contains(lines[i+1], "zz_verif_") && !strings.Contains(l, "verifkit") {
-				fn = l
-				if p := strings.LastIndex(fn, "("); p > 0 {
-					fn = fn[:p]
-				}
-				if j := strings.LastIndex(fn, "/"); j >= 0 {
-					fn = fn[j+1:]
-				}
-				break
-			}
-		}
-		c.Fail("C06/panic/"+fn, "panic: %v\n%s", e, stack)
-	}()
-	f()
-	return false
 }
 
 func TestVerifC06ReservationCycles(t *testing.T) {
@@ -360,10 +316,7 @@ func TestVerifC06ReservationCycles(t *testing.T) {
 					pl.RemovePod(ctx, cs2, pod, pi, nodeInfo)
 					check("after RemovePod(" + string(uid) + ") in the preemption dry run for " + pod.Name)
 				}
-				var s *fwktype.Status
-				if c06GuardKnownPanic(c, func() { s = pl.Filter(ctx, cs2, pod, nodeInfo) }) {
-					return
-				}
+				s := pl.Filter(ctx, cs2, pod, nodeInfo)
 				check("after Filter in the preemption dry run for " + pod.Name)
 				c.Count("resv_preemption_dry_runs", 1)
 				if s.IsSuccess() {
@@ -372,9 +325,7 @@ func TestVerifC06ReservationCycles(t *testing.T) {
 				pi, _ := framework.NewPodInfo(pods[cands[0]])
 				pl.AddPod(ctx, cs2, pod, pi, nodeInfo)
 				check("after AddPod(" + string(cands[0]) + ") in the preemption dry run for " + pod.Name)
-				if c06GuardKnownPanic(c, func() { s = pl.Filter(ctx, cs2, pod, nodeInfo) }) {
-					return
-				}
+				pl.Filter(ctx, cs2, pod, nodeInfo)
 				check("after the second Filter in the preemption dry run for " + pod.Name)
 			}
 
@@ -426,11 +377,7 @@ func TestVerifC06ReservationCycles(t *testing.T) {
 					c.Op("  PreFilter -> %s %s", s.Code(), s.Message())
 					return
 				}
-				if c06GuardKnownPanic(c, func() { s = pl.Filter(ctx, cs, pod, nodeInfo) }) {
-					outcome = "panicked"
-					check("after the panic in Filter for " + pod.Name)
-					return
-				}
+				s = pl.Filter(ctx, cs, pod, nodeInfo)
 				c.Count("resv_filter_calls", 1)
 				check("after Filter for " + pod.Name)
 				if !s.IsSuccess() {
@@ -466,11 +413,7 @@ func TestVerifC06ReservationCycles(t *testing.T) {
 					c.Count("resv_evaluations_only", 1)
 					return
 				}
-				if c06GuardKnownPanic(c, func() { s = pl.Reserve(ctx, cs, pod, c06NodeName) }) {
-					outcome = "panicked"
-					check("after the panic in Reserve of " + pod.Name)
-					return
-				}
+				s = pl.Reserve(ctx, cs, pod, c06NodeName)
 				state, _ := getPreFilterState(cs)
 				if !s.IsSuccess() {
 					outcome = "reserve-failed"
@@ -490,6 +433,39 @@ func TestVerifC06ReservationCycles(t *testing.T) {
 				}
 				book.allocs[pod.UID] = c06CopyAlloc(state.allocation)
 				c.Op("  Reserve -> ok %s", c06AllocStr(state.allocation))
+				// a required full-core / spread policy that is reported satisfied really is. Required: by the pod
+				// (annotation; "Default" means the plugin's configured default) or by the node (label)
+				if got := state.allocation.CPUSet; !got.IsEmpty() {
+					eff := schedulingconfig.CPUBindPolicy("")
+					switch extension.NodeCPUBindPolicy(node.Labels[extension.LabelNodeCPUBindPolicy]) {
+					case extension.NodeCPUBindPolicyFullPCPUsOnly:
+						eff = schedulingconfig.CPUBindPolicyFullPCPUs
+					case extension.NodeCPUBindPolicySpreadByPCPUs:
+						eff = schedulingconfig.CPUBindPolicySpreadByPCPUs
+					default:
+						if shape.cpuset && shape.required {
+							eff = schedulingconfig.CPUBindPolicy(shape.bind)
+							if eff == schedulingconfig.CPUBindPolicyDefault {
+								eff = suit.nodeNUMAResourceArgs.DefaultCPUBindPolicy
+							}
+						}
+					}
+					if eff == schedulingconfig.CPUBindPolicyFullPCPUs {
+						c.Count("resv_required_fullpcpus_reserved", 1)
+						if !c06FullCores(topo, got) {
+							c.Fail("C06/allocate/fullpcpus-not-satisfied", "Reserve of %s: required FullPCPUs reported satisfied but %s does not consist of whole cores", pod.Name, got.String())
+						}
+					}
+					if eff == schedulingconfig.CPUBindPolicySpreadByPCPUs {
+						c.Count("resv_required_spread_reserved", 1)
+						if !c06OnePerCore(topo, got) {
+							c.Fail("C06/allocate/spread-not-satisfied", "Reserve of %s: required SpreadByPCPUs reported satisfied but %s has two CPUs of one core", pod.Name, got.String())
+						}
+					}
+					if int64(got.Size())*1000 != shape.milli {
+						c.Fail("C06/allocate/wrong-count", "Reserve of %s booked cpuset %s (%d CPUs), the pod requests %dm", pod.Name, got.String(), got.Size(), shape.milli)
+					}
+				}
 				c.Count("resv_reserved", 1)
 				if len(state.allocation.NUMANodeResources) > 0 {
 					c.Count("resv_reserved_with_numa_amounts", 1)
